@@ -70,8 +70,9 @@ Inductive op :=
 | OMul (a b : list Z) (r : list Z)                           (* multiply *)
 | OMulInto (a b res0 : list Z) (r : list Z)                  (* multiply_into on destination res0 *)
 | OFft (v : list Z) (n : Z) (r : list (Z * Z))               (* fft(v, n): bit patterns *)
-| OFftInto (v : list Z) (n : Z) (res0 : list (Z * Z)) (r : list (Z * Z))
-                                                             (* fft_into; destination = small integers *)
+| OFftInto (v : list Z) (n : Z) (res0 : list (Z * Z)) (r plain : list (Z * Z))
+                                                             (* fft_into on destination res0 (small integers), then
+                                                                fft of the same input on the same object *)
 | OInv (a b : list Z) (n : Z) (res0 : list Z) (r : list Z)   (* fft a n, fft b n, product, fft_inv_into res0 *)
 | OPanic.                                                    (* the call panicked *)
 Record case := mkcase { table : list (Z * Z); ops : list op }.
@@ -90,8 +91,10 @@ Definition step_model (s : cstate) (o : op) : cstate * bool :=
   | OMul a b r => let '(s', x) := multiply fops tw s a b in (s', leqb Z.eqb x r)
   | OMulInto a b res0 r => let '(s', x) := multiply_into fops tw s a b res0 in (s', leqb Z.eqb x r)
   | OFft v n r => let '(s', x) := fft fops tw s v (Z.to_nat n) in (s', leqb ceqb x (map c_of_bits r))
-  | OFftInto v n res0 r =>
-      let '(s', x) := fft_into fops tw s v (Z.to_nat n) (map dest_of res0) in (s', leqb ceqb x (map c_of_bits r))
+  | OFftInto v n res0 r plain =>
+      let '(s1, x) := fft_into fops tw s v (Z.to_nat n) (map dest_of res0) in
+      let '(s', y) := fft fops tw s1 v (Z.to_nat n) in
+      (s', leqb ceqb x (map c_of_bits r) && leqb ceqb y (map c_of_bits plain))
   | OInv a b n res0 r => let '(s', x) := inv_prod_into fops tw s a b (Z.to_nat n) res0 in (s', leqb Z.eqb x r)
   | OPanic => (s, false)
   end.
@@ -119,7 +122,9 @@ Definition spec_op (o : op) : bool :=
       then leqb Z.eqb r (zip_add_Z res0 (pad (conv a b) (Z.to_nat n)))
       else true
   | OFft v n r => (length r =? fft_size (length v) (Z.to_nat n))%nat
-  | OFftInto v n res0 r => (length r =? length res0)%nat
+  | OFftInto v n res0 r plain =>
+      (* additive contract, in binary64: destination + fft(v, n), elementwise over the zip *)
+      leqb ceqb (map c_of_bits r) (zip_acc (cadd fops) (map dest_of res0) (map c_of_bits plain))
   | OPanic => false
   | _ => true
   end.
@@ -139,7 +144,9 @@ Fixpoint explain_from (tw : nat -> nat -> float * float) (s : cstate) (l : list 
         | OMul a b _ => let '(s', x) := multiply fops tw s a b in (s', SInts x)
         | OMulInto a b res0 _ => let '(s', x) := multiply_into fops tw s a b res0 in (s', SInts x)
         | OFft v n _ => let '(s', x) := fft fops tw s v (Z.to_nat n) in (s', show_c x)
-        | OFftInto v n res0 _ => let '(s', x) := fft_into fops tw s v (Z.to_nat n) (map dest_of res0) in (s', show_c x)
+        | OFftInto v n res0 _ _ =>
+            let '(s1, x) := fft_into fops tw s v (Z.to_nat n) (map dest_of res0) in
+            (fst (fft fops tw s1 v (Z.to_nat n)), show_c x)
         | OInv a b n res0 _ => let '(s', x) := inv_prod_into fops tw s a b (Z.to_nat n) res0 in (s', SInts x)
         | OPanic => (s, SNone)
         end in
